@@ -226,6 +226,15 @@ Theorem C15_error_frame_refuted_mv_root :
 Proof. exact mv_root_error_changes_file. Qed.
 Print Assumptions C15_error_frame_refuted_mv_root.
 
+(** ... for a cross-file copy onto an occupied ROOT, which fails midway (D29) ... *)
+Theorem C15_error_frame_refuted_root_copy :
+  let w := run world0 [OCreate FA [] false (tiny 1); OCreate FA ["c10"%string] false (tiny 2);
+                       OCreate FA ["c2"%string] false (tiny 4); OCreate FB ["c2"%string] false (tiny 3)] in
+  let r := cp w FA [] FB [] false in
+  fst r = ERuntime /\ is_cooler w FB ["c10"%string] = TFalse /\ is_cooler (snd r) FB ["c10"%string] = TTrue.
+Proof. exact copy_root_error_partial. Qed.
+Print Assumptions C15_error_frame_refuted_root_copy.
+
 (** ... and under the overwrite flag (documented: the destination file is truncated first) *)
 Theorem C15_error_frame_refuted_overwrite :
   let w := run world0 [OCreate FA sx false (tiny 1); OCreate FB sx false (tiny 2)] in
